@@ -91,9 +91,9 @@ def cells(tier, seed):
         # (20 = the default number of quadrature nodes: a batch dimension of that size must not be confused with the node axis)
         for pb, xb in pairs + [((20,), ()), ((), (20,))]:
             out.append({"what": "likelihood", "name": name, "pb": list(pb), "xb": list(xb)})
-    for fam in ("exact", "matern_ard", "sumprod", "linearmean", "fixednoise_learn"):
+    for fam in ("exact", "matern_ard", "sumprod", "linearmean", "fixednoise_learn", "exact+prior"):
         for pb, xb in pairs:
-            if tier == "quick" and fam not in ("exact", "sumprod") and len(pb) + len(xb) > 2:
+            if tier == "quick" and fam not in ("exact", "sumprod", "exact+prior") and len(pb) + len(xb) > 2:
                 continue
             out.append({"what": "exactgp", "name": fam, "pb": list(pb), "xb": list(xb)})
     for strat, dist in (("vs", "chol"), ("vs", "mf"), ("uvs", "chol"), ("vs", "nat"), ("vs", "chol+prior")):
@@ -276,13 +276,16 @@ def run_likelihood(cell, pb, xb, g, fails, seed):
 def run_exact(cell, pb, xb, g, fails, seed):
     bb = torch.broadcast_shapes(pb, xb)
     fam = cell["name"]
+    pri = ()
+    if fam.endswith("+prior"):   # hyper-priors on lengthscale and noise: each batch element carries ITS OWN prior terms
+        fam, pri = fam.replace("+prior", ""), ("ls", "noise")
     n, m = 4, 3
     with fails.guard("exactgp"):
         X = util.rand(g, *xb, n, D)
         y = util.randn(g, *bb, n)
         Xs = util.rand(g, *xb, m, D)
         noise = (0.05 + 0.2 * util.rand(g, *bb, n)) if fam.startswith("fixednoise") else None
-        model = models.ExactModel(X, y, fam, seed, batch_shape=pb, noise=noise)
+        model = models.ExactModel(X, y, fam, seed, batch_shape=pb, noise=noise, priors=pri)
         distinct_params_(model, g)
         with torch.no_grad():
             for name, p in model.named_parameters():
@@ -299,7 +302,7 @@ def run_exact(cell, pb, xb, g, fails, seed):
             cov = out.covariance_matrix.expand(*bb, m, m)
         for b in elements(bb):
             Xb, yb, Xsb = X.expand(*bb, n, D)[b], y[b], Xs.expand(*bb, m, D)[b]
-            rep = models.ExactModel(Xb, yb, fam, seed, noise=noise[b] if noise is not None else None)
+            rep = models.ExactModel(Xb, yb, fam, seed, noise=noise[b] if noise is not None else None, priors=pri)
             slice_into(model, rep, pb, bb, b)
             rep.train()
             rm = gpytorch.mlls.ExactMarginalLogLikelihood(rep.likelihood, rep)
